@@ -30,6 +30,14 @@ CHECKS = {
              text="Four theorems (missing required property, int out of range, closed-enum outside value, literal mismatch): for every structure, every eligible property, EVERY object carrying the edit, every fuel and every str() oracle, structuring does not return an object. The eligibility table (each eligible property has the field shape the generic theorem needs) is re-proved by vm_compute against the current metamodel and package.",
              note="Trusted: Coq kernel+VM; translators x_mm, x_pkg; the hand-written converter model LSP.Sem (cattrs/attrs/enum semantics), validated by the correspondence stream (every edited input: model and real converter agree) — not verified. Axioms: none.",
              ref="6/C11"),
+ "C10": dict(cat="proof", tech="Coq: generic keys_rule about the converter model (every class, object, callback) composed with re-proved image facts; correspondence + exhaustive toggle search on the real converter",
+             text="C10_key_rule: for every structure, every flattened property, every instance whose unstructuring succeeds, the key is left out iff the attribute is None, the property is optional and its type admits no null; literal/null-admitting properties always written; absent special properties read as None/literal; envelope method/jsonrpc/result never omitted (instance over the catalogue + generic lemma).",
+             note="Trusted: Coq kernel+VM; translators x_mm, x_pkg (omit flags and wire names read from the overrides cattrs attached to the functions it generated); converter model LSP.Sem validated by correspondence (toggle stream), not verified. Axioms: none.",
+             ref="6/C10"),
+ "C13": dict(cat="proof", tech="Coq: ground enum-table equality + instance table of use sites + generic acceptance/rejection/round-trip lemmas for every value; correspondence and exhaustive use-site search on the real converter",
+             text="Enum table equals the metamodel's values with multiplicity (ground, from W_img); every direct use site has the Python type/hook shape required (instance, exhaustive); at open sites EVERY primitive is accepted unchanged and round-trips, closed enumerations accept each declared value as that member and reject every other value of the base type (generic lemmas, all callbacks).",
+             note="Trusted: Coq kernel+VM; translators x_mm, x_pkg (hook bodies from the AST of _hooks.py, registration list from a recording converter); converter model LSP.Sem validated by correspondence, not verified. Axioms: none.",
+             ref="6/C13"),
 }
 ALL = ["C%02d" % i for i in range(1, 21)]
 def main():
